@@ -50,8 +50,10 @@ def parseOp (toks : List String) : Option Op :=
   | ["svc", ns, name, kind, ports, sel, flags] =>
     let fl := decList flags
     some (.svc { ns := dec ns, name := dec name, kind := kind, ports := parseNamePort ports, sel := parseKV sel,
-                 drain := fl.contains "drain", td := fl.contains "td", x := fl.contains "x",
-                 sas := fl.contains "sa" })
+                 drain := fl.contains "drain",
+                 -- spec.trafficDistribution ("std") and the Service annotation ("td") both win over the namespace's
+                 td := fl.contains "td" || fl.contains "std", x := fl.contains "x",
+                 sas := fl.contains "sa", csa := fl.contains "csa", eip := fl.contains "eip", nl := fl.contains "nl" })
   | ["delsvc", ns, name] => some (.delSvc (dec ns) (dec name))
   | ["slice", ns, name, svc, atype, ports, eps] =>
     -- a slice with the MCS service-name label ("M:<svc>") is invisible to the controller (endpointSliceSelector): no op
@@ -98,15 +100,18 @@ def showSvc (s : Svc) : String :=
   let proto := fun (n : String) => if n.startsWith "http" then "HTTP" else if n.startsWith "tcp" then "TCP" else "UnsupportedProtocol"
   let ports := ",".intercalate (s.ports.map fun p => p.1 ++ ":" ++ toString p.2 ++ ":" ++ proto p.1)
   let res := if s.kind == "ext" then "alias" else if s.kind == "hl" then "pass" else "eds"
-  let addr := if s.kind == "cip" then clusterIP s.name else "0.0.0.0"
+  let addr := if s.kind == "cip" || s.kind == "lb" then clusterIP s.name else "0.0.0.0"
   let ext := if s.kind == "ext" then "ext.example.com" else ""
-  let ty := if s.kind == "ext" then "ExternalName" else "ClusterIP"
+  let ty := if s.kind == "ext" then "ExternalName" else if s.kind == "lb" then "LoadBalancer" else "ClusterIP"
+  let extAddrs := (if s.kind == "lb" then ["1.2.3.4"] else []) ++ (if s.eip then ["5.6.7.8"] else [])
   let me := if s.kind == "ext" then "1" else "0"
   let lbl := if s.drain then "istio.io/persistent-session=c" else ""
   let td := if s.td then "close" else "any"
   s.host ++ "{" ++ res ++ ";" ++ addr ++ ";" ++ ports ++ ";" ++ showMap s.sel ++ ";" ++ ext ++ ";" ++ ty ++ ";" ++ me ++ ";" ++
     lbl ++ ";" ++ td ++ ";" ++ (if s.x then "~" else "") ++ ";" ++
-    (if s.sas then "spiffe://cluster.local/ns/" ++ s.ns ++ "/sa/acct1+spiffe://cluster.local/ns/" ++ s.ns ++ "/sa/acct2" else "") ++ "}"
+    "+".intercalate ((if s.csa then ["spiffe://cluster.local/ns/x/sa/canon"] else []) ++
+      (if s.sas then ["spiffe://cluster.local/ns/" ++ s.ns ++ "/sa/acct1", "spiffe://cluster.local/ns/" ++ s.ns ++ "/sa/acct2"] else [])) ++
+    ";" ++ addr ++ ";" ++ "+".intercalate extAddrs ++ ";" ++ (if s.nl then "1" else "0") ++ "}"
 
 def showSas (l : List String) : String := "{" ++ ",".intercalate (sortStrings l.eraseDups) ++ "}"
 
@@ -125,11 +130,14 @@ def showState (s : Ctl) : String :=
   "S[" ++ " ".intercalate svcs ++ "] X[" ++ " ".intercalate idx ++ "] C[" ++ " ".intercalate slc ++ "] I[" ++
     showSetMap s.byIP ++ "] P[" ++ " ".intercalate ipby ++ "] R[" ++ showSetMap s.resync ++ "]"
 
+/-- the endpoint SET (the property view; the full dump keeps the list) -/
+def showIEpSet (l : List IEp) : String := "[" ++ ",".intercalate (sortStrings (l.map showIEp)) ++ "]"
+
 def showView (s : Ctl) : String :=
   let parts := (sortByKey (·.1) s.smap).map fun kv =>
     match alookup kv.1 s.index with
     | none => showSvc kv.2 ++ "=[]{}"
-    | some e => showSvc kv.2 ++ "=" ++ showIEps (e.eps.getD []) ++ showSas e.sas
+    | some e => showSvc kv.2 ++ "=" ++ showIEpSet (e.eps.getD []) ++ showSas e.sas
   "<" ++ " ".intercalate parts ++ ">"
 
 def kindsDefault : List String := ["node", "ns", "svc", "pod", "slice"]
@@ -220,8 +228,10 @@ def podKeyOf (e : IEp) : String := e.ns ++ "/" ++ e.workload
 
 /-- the slice endpoint (of the final objects) an address of a host comes from; with duplicates across
     slices, one whose pod is known (it is the one that builds an endpoint) is preferred -/
-def sourceOf (final : Ctl) (host addr : String) : Option Ep :=
-  let cands := (final.slices.filter (fun sl => sl.host = host ∧ !sl.fqdn ∧ sl.svc ≠ "")).flatMap fun sl =>
+def sourceOf (final : Ctl) (host addr : String) (portName : String := "*") : Option Ep :=
+  -- sibling slices may have different port lists: the endpoint (address, port name) comes from a slice with that port
+  let cands := (final.slices.filter (fun sl => sl.host = host ∧ !sl.fqdn ∧ sl.svc ≠ "" ∧
+      (portName = "*" ∨ sl.ports.any (·.1 = portName)))).flatMap fun sl =>
     (sl.addrPairs.filter (·.2 = addr)).map (·.1)
   match cands.find? (fun ep => match ep.target with
       | some (tns, tn) => (findPod final.pods tns tn).isSome
@@ -229,8 +239,8 @@ def sourceOf (final : Ctl) (host addr : String) : Option Ep :=
   | some ep => some ep
   | none => cands.head?
 
-def untargeted (final : Ctl) (host addr : String) : Bool :=
-  match sourceOf final host addr with
+def untargeted (final : Ctl) (host addr : String) (portName : String := "*") : Bool :=
+  match sourceOf final host addr portName with
   | some ep => ep.target.isNone
   | none => false
 
@@ -252,16 +262,16 @@ def symptomsHost (final o c : Ctl) (host : String) : List Symptom :=
     let extra := vo.eps.filter fun e => !(vc.eps.any fun x => epKey x = epKey e)
     let both := vo.eps.filterMap fun e => (vc.eps.find? fun x => epKey x = epKey e).map fun x => (e, x)
     let m := missing.map fun e =>
-      if untargeted final host e.addr then { cls := "untargeted", host := host, obj := e.addr, epAddr := e.addr } else
-      match sourceOf final host e.addr with
+      if untargeted final host e.addr e.portName then { cls := "untargeted", host := host, obj := e.addr, epAddr := e.addr } else
+      match sourceOf final host e.addr e.portName with
       | some ep =>
         match ep.target with
         | some (tns, tn) => { cls := "missing", host := host, obj := tns ++ "/" ++ tn, epAddr := e.addr : Symptom }
         | none => { cls := "missing", host := host, obj := e.addr, epAddr := e.addr }
       | none => { cls := "missing", host := host, obj := e.addr, epAddr := e.addr }
     let x := extra.map fun e =>
-      if untargeted final host e.addr then { cls := "untargeted", host := host, obj := e.addr, epAddr := e.addr } else
-      match sourceOf final host e.addr with
+      if untargeted final host e.addr e.portName then { cls := "untargeted", host := host, obj := e.addr, epAddr := e.addr } else
+      match sourceOf final host e.addr e.portName with
       | some ep =>
         match ep.target with
         | some (tns, tn) => { cls := "extra", host := host, obj := tns ++ "/" ++ tn, epAddr := e.addr : Symptom }
@@ -269,13 +279,18 @@ def symptomsHost (final o c : Ctl) (host : String) : List Symptom :=
       | none => { cls := "extra-no-source", host := host, obj := e.addr, epAddr := e.addr }
     let d := both.flatMap fun p => if p.1 = p.2 then [] else
       let cl := diffSymptoms host p.1 p.2
-      if untargeted final host p.1.addr then
+      if untargeted final host p.1.addr p.1.portName then
         -- an endpoint without targetRef: its health is its own, everything else comes from the pod found by IP
         (cl.filter (·.cls == "health")) ++
           (if (cl.any (·.cls != "health")) || cl.isEmpty then
             [mkSy "untargeted" host p.1.addr (if p.1.workload ≠ "" then podKeyOf p.1 else podKeyOf p.2) (podKeyOf p.2) p.1.addr
               (if p.1.node ≠ "" then p.1.node else p.2.node)] else [])
-      else if cl.isEmpty then [{ cls := "content-other", host := host, obj := p.1.addr, epAddr := p.1.addr }] else cl
+      else if cl.isEmpty then
+        -- same (address, port name), other port number: sibling slices with different port lists, and the first-wins
+        -- deduplication of `get` picked another slice - a by-product of an endpoint missing / kept elsewhere
+        (if p.1.port ≠ p.2.port then [{ cls := "dup", host := host, obj := p.1.addr, epAddr := "" }]
+         else [{ cls := "content-other", host := host, obj := p.1.addr, epAddr := p.1.addr }])
+      else cl
     let a := if m.isEmpty ∧ x.isEmpty ∧ d.isEmpty ∧ sortStrings vo.sas.eraseDups ≠ sortStrings vc.sas.eraseDups
       then [{ cls := "accounts", host := host, obj := host : Symptom }] else []
     let sv := if vo.svc ≠ vc.svc then [{ cls := "service-differs", host := host, obj := host : Symptom }] else []
@@ -317,6 +332,11 @@ def causesOf (c : Ctl) (op : Op) : List (String × String) :=
       if v.phase = "F" then [] else
       (if c.slices.any (fun sl => sl.addrPairs.any fun ea => ea.1.target == some (v.ns, v.name) && (ea.2 ≠ v.ip || v.ip = ""))
         then [("waiting-address-differs-from-pod-ip", key)] else []) ++
+      -- the pod is RE-created: a slice that refers to it still shows the endpoint it built from the deleted
+      -- predecessor of the same name (nothing is parked for it, so the new pod's events do not replay it)
+      (if c.slices.any (fun sl => sl.addrPairs.any fun ea => ea.1.target == some (v.ns, v.name) &&
+            ((cacheEntry c.cache sl.host sl.name).getD []).any (·.addr == ea.2))
+        then [("identity-of-replaced-pod", key)] else []) ++
       (if untargetedAt c v.ns v.ip then [("untargeted-endpoint-pod-lookup-stale", v.ip)] else [])
     | some o =>
       (if v.phase = "F" then
@@ -324,7 +344,11 @@ def causesOf (c : Ctl) (op : Op) : List (String × String) :=
        else
         (if normLabels o.labels ≠ normLabels v.labels ∧ refsPod c v.ns v.name ∧ ¬ PodLabelGood c v then
           [("labels-built-before-pod-label-change", key)] else []) ++
-        (if (o.sa ≠ v.sa ∨ o.node ≠ v.node) ∧ refsPod c v.ns v.name then [("identity-of-replaced-pod", key)] else [])) ++
+        -- an in-place change of node / service account replays the slices that refer to the pod (fix ab6ec60): no cause,
+        -- unless a slice of ANOTHER namespace refers to it (only the pod's namespace is listed)
+        (if (o.sa ≠ v.sa ∨ o.node ≠ v.node) ∧
+            c.slices.any (fun sl => sl.ns ≠ v.ns && sl.addrPairs.any fun ea => ea.1.target == some (v.ns, v.name)) then
+          [("pod-updated-after-slice-built", key)] else [])) ++
       (if untargetedAt c v.ns v.ip then [("untargeted-endpoint-pod-lookup-stale", v.ip)] else []) ++
       (if o.ip ≠ v.ip ∧ untargetedAt c v.ns o.ip then [("untargeted-endpoint-pod-lookup-stale", o.ip)] else [])
   | .delPod ns name =>
@@ -442,11 +466,18 @@ def explains (final : Ctl) (ops : List Op) (sy : Symptom) (cause : Cause) : Bool
 /-- the verdict for a diverging case: every symptom with the cause (a step outside `GoodStep`, by
     clause name) that explains it, or `unexplained:<symptom>` -/
 def classify (final o c : Ctl) (ops : List Op) (causes : List Cause) : List String :=
-  let out := (symptoms final o c).map fun sy =>
-    match causes.find? (explains final ops sy) with
+  let sys := symptoms final o c
+  let main := sys.filter (·.cls != "dup")
+  -- the LAST explaining cause names the class (the step closest to the end: a re-created pod rather than its earlier delete)
+  let out := main.map fun sy =>
+    match causes.reverse.find? (explains final ops sy) with
     | some cause => cause.1
     | none => "unexplained:" ++ sy.cls
-  sortStrings out.eraseDups
+  -- a `dup` symptom is explained by whatever explains another symptom of the same hostname
+  let dups := (sys.filter (·.cls == "dup")).filterMap fun sy =>
+    if main.any (fun m => m.host == sy.host && (causes.find? (explains final ops m)).isSome) then none
+    else some "unexplained:dup"
+  sortStrings (out ++ dups).eraseDups
 
 /-- classify stream state: the model state and the operations of the case so far (reversed) -/
 structure CState where
@@ -505,6 +536,12 @@ def viewsAgree (c d : Ctl) : Bool :=
 /-- the conclusion of `convergence_to_derive`, evaluated -/
 def agreesWithDerive (c : Ctl) : Bool := agreesWith c c
 
+/-- `ResyncSound` evaluated: every registration of `needResync` belongs to a slice of the store that has the address on
+    an endpoint whose targetRef pod is absent or has no IP yet (the soundness half of `needResync_no_leak`) -/
+def resyncSoundB (c : Ctl) : Bool :=
+  c.resync.all fun ak => ak.2.all fun k =>
+    c.slices.any fun sl => sl.key == k && (parkedAddrs (visPods c.pods) sl).contains ak.1
+
 /-- the hypotheses of `cold_start_inv` on the creates of a cold start -/
 def coldOK (objs : List Op) : Bool :=
   decide (ColdOps {} objs) && decide (ColdHyp (coldFold {} objs).1) && decide (SvcBeforeSlice (coldFold {} objs).2)
@@ -539,6 +576,7 @@ def stepClassify (cs : CState) (toks : List String) : CState × String :=
       boolTok (agreesWith cold.c (coldFold {} coldOps).1) ++
       " nodes=" ++ boolTok (decide (NodesUnique (coldFold {} coldOps).1)) ++
       " coldagree=" ++ boolTok (viewsAgree s'.c cold.c) ++
+      " leak=" ++ boolTok (!(resyncSoundB s'.c)) ++
       " bad=" ++ firstBad {} [] [] 0 ops ++
       " ordered=" ++ enc (showView s'.c) ++ " cold=" ++ enc (showView cold.c))
   | _ =>
